@@ -116,6 +116,9 @@ def _reserved_syntax(res: C.Result, deep: bool):
     recs, lines, meta = R.rx_run(entries)
     ex = res.extra
     ex["reserved_syntax"] = meta
+    if meta.get("pattern_missing"):
+        res.corr_diffs.append({"name": "corr:M7/reserved-regex", "diff": "no re.<f>(<pattern literal>, e) call in Parser.handle_reserve",
+                               "case": {"rx": True, "entries": ["10-12"]}})
     # a differently spelled pattern is not a difference by itself (informational, `reserved_syntax` above): what counts is
     # that the real `re.search(<pattern of the source>)` and the model agree on every generated entry
     out = C.parse_driver(C.run_driver("registry", lines))
